@@ -54,7 +54,7 @@ def static_vs_runtime(model, payload):
         except BaseException as e:
             return {"reproduced": True, "detail": "literal %r: %s %s" % (d, type(e).__name__, e)}
         if not (dict(rt) == dict(st) == dict(st_kw)) or dict(rt_def) != dict(st_def) or dict(rt_def) != dict(rt):
-            return {"reproduced": True, "detail": "literal %r: run-time hash %s, static positional %s, static keyword %s, default run-time %s, default static %s" % (d, rt["b"][:8], st["b"][:8], st_kw["b"][:8], rt_def["b"][:8], st_def["b"][:8]), "inputs": {"literal": repr(d)}}
+            return {"reproduced": True, "detail": "literal %r: run-time hash %s, static positional %s, static keyword %s, default run-time %s, default static %s" % (d, str(rt["b"])[:8], str(st["b"])[:8], str(st_kw["b"])[:8], str(rt_def["b"])[:8], str(st_def["b"])[:8]), "inputs": {"literal": repr(d)}}
     return {"reproduced": False, "detail": "static and run-time hashes agree"}
 
 
